@@ -286,19 +286,21 @@ structure Params where
 
 def DEFAULT_HOLD_TIME : Nat := 180
 
-/-- `PeerParams::apply_peer_group` -/
+/-- `PeerParams::apply_peer_group`: a sequence of independent per-field fallbacks (every guard
+    reads only the field it may overwrite, so the statement order does not matter) -/
 def applyPeerGroup (p : Params) (g : Group) : Params :=
-  let p := if p.expected = 0 && g.asn != 0 then { p with expected := g.asn } else p
-  let p := if p.localAsn = 0 && g.localAsn != 0 then { p with localAsn := g.localAsn } else p
-  let p := if p.hold = DEFAULT_HOLD_TIME then
-             match g.hold with | some h => { p with hold := h } | none => p
-           else p
-  let p := if p.fams.isEmpty then { p with fams := g.fams, sm := g.sm } else p
-  let p := if p.gr.isNone then { p with gr := g.gr } else p
-  let p := if p.llgr.isNone then { p with llgr := g.llgr } else p
-  let p := if !p.passive && g.passive then { p with passive := true } else p
-  let p := if !p.rs && g.rs then { p with rs := true } else p
-  if !p.rrClient && g.rrClient then { p with rrClient := g.rrClient, cluster := g.cluster } else p
+  { p with
+    expected := if p.expected = 0 && g.asn != 0 then g.asn else p.expected
+    localAsn := if p.localAsn = 0 && g.localAsn != 0 then g.localAsn else p.localAsn
+    hold := if p.hold = DEFAULT_HOLD_TIME then (match g.hold with | some h => h | none => p.hold) else p.hold
+    fams := if p.fams.isEmpty then g.fams else p.fams
+    sm := if p.fams.isEmpty then g.sm else p.sm
+    gr := if p.gr.isNone then g.gr else p.gr
+    llgr := if p.llgr.isNone then g.llgr else p.llgr
+    passive := if !p.passive && g.passive then true else p.passive
+    rs := if !p.rs && g.rs then true else p.rs
+    rrClient := if !p.rrClient && g.rrClient then g.rrClient else p.rrClient
+    cluster := if !p.rrClient && g.rrClient then g.cluster else p.cluster }
 
 def Ip.isV6 (a : Ip) : Bool := a.bytes.length = 16
 
@@ -428,16 +430,20 @@ def pset (a : Ip) (p : Peer) : List (Ip × Peer) → List (Ip × Peer)
 def St.ctx (st : St) (i : Nat) : Ctx := (st.ctxs[i]?).getD {}
 def St.setCtx (st : St) (i : Nat) (c : Ctx) : St := { st with ctxs := st.ctxs.set i c }
 
+/-- first step of `Global::add_peer`: towards a neighbour that is neither in a member AS nor in
+    our own AS the confederation identifier is the local AS (RFC 5065 §4) -/
+def confedAdjust (asn : Nat) (confed : Option (Nat × List Nat)) (p : Params) : Params :=
+  let own := if p.localAsn != 0 then p.localAsn else asn
+  match confed with
+  | some (id, members) =>
+      if !members.contains p.expected && p.expected != own then { p with localAsn := id } else p
+  | none => p
+
 /-- `Global::add_peer` (None = Err(AlreadyExists)) -/
 def addPeer (st : St) (p : Params) : Option St :=
   if (plookup p.addr st.peers).isSome then none
   else
-    let own := if p.localAsn != 0 then p.localAsn else st.asn
-    let p := match st.confed with
-      | some (id, members) =>
-          if !members.contains p.expected && p.expected != own then { p with localAsn := id } else p
-      | none => p
-    let cfg := build p st.asn
+    let cfg := build (confedAdjust st.asn st.confed p) st.asn
     some { st with
       peers := st.peers ++ [(p.addr, { cfg := cfg, adminDown := p.adminDown, ctx := st.ctxs.length })]
       ctxs := st.ctxs ++ [{}] }
@@ -490,6 +496,10 @@ def clusterOf (role : PeerRole) (cfg : PeerCfg) (rid : Nat) : Option Nat :=
   | .ibgp | .rrClient => some (cfg.cluster.getD rid)
   | _ => none
 
+def confedIdOf : Option (Nat × List Nat) → Nat
+  | some (id, _) => id
+  | none => 0
+
 /-- second half of `accept_connection`: register the close channel, build the session -/
 def openSession (st : St) (addr : Ip) (p : Peer) (role : Role) : St × Res :=
   let sid := st.nextSid
@@ -498,7 +508,7 @@ def openSession (st : St) (addr : Ip) (p : Peer) (role : Role) : St × Res :=
   let info : SessInfo :=
     { role := pr, localAsn := p.cfg.localAsn, caps := p.cfg.caps, pl := p.cfg.pl
       cluster := clusterOf pr p.cfg st.rid
-      confedId := match st.confed with | some (id, _) => id | none => 0
+      confedId := confedIdOf st.confed
       restarting := false }
   let s : Sess := { sid := sid, addr := addr, role := role, ctx := p.ctx, doom := none
                     asn := p.cfg.localAsn, hold := p.cfg.hold, caps := p.cfg.caps }
@@ -544,16 +554,21 @@ def forceDown (st : St) (ctx : Nat) (d : Doom) : St :=
   let live := doomSess (doomSess st.live c.slotA d) c.slotP d
   { (st.setCtx ctx {}) with live := live }
 
+/-- what the remote end sees first from a session task: the OPEN built from the neighbour's
+    configuration, or — when a close reason was already waiting — only the NOTIFICATION -/
+def firstSeen (s : Sess) (rid : Nat) : Res :=
+  match s.doom with
+  | some .admin => Res.discNotif 6 2
+  | some .deconf => Res.discNotif 6 3
+  | none => Res.discOpen s.asn s.hold rid s.caps
+
 /-- the session task from `run` to its end: what the remote end sees first, then
     `apply_disconnect` and the tail of `PeerSession::run` -/
 def disconnect (st : St) (sid : Nat) : St × Res :=
   match st.live.find? (fun s => s.sid = sid) with
   | none => (st, .noSession)
   | some s =>
-    let first := match s.doom with
-      | some .admin => Res.discNotif 6 2
-      | some .deconf => Res.discNotif 6 3
-      | none => Res.discOpen s.asn s.hold st.rid s.caps
+    let first := firstSeen s st.rid
     -- apply_disconnect: the close slot of this role is cleared, whoever's sender is there
     let c := (st.ctx s.ctx).set s.role none
     let st := st.setCtx s.ctx c
@@ -671,14 +686,17 @@ def normGroups (gs : List Group) : List Group :=
 
 def findGroup (gs : List Group) (n : String) : Option Group := gs.find? fun g => g.name = n
 
-/-- configuration loading: `apply_peer_group` when the named group exists, then `add_peer` -/
+/-- configuration loading, first half: `apply_peer_group` when the named group exists -/
+def resolveParams (groups : List Group) (pc : PeerCase) : Params :=
+  match pc.group.bind (findGroup groups) with
+  | some g => applyPeerGroup pc.params g
+  | none => pc.params
+
+/-- configuration loading: `apply_peer_group`, then `add_peer`, neighbour by neighbour -/
 def setupPeers (st : St) : List PeerCase → St × List Bool
   | [] => (st, [])
   | pc :: rest =>
-      let p := match pc.group.bind (findGroup st.groups) with
-        | some g => applyPeerGroup pc.params g
-        | none => pc.params
-      match addPeer st p with
+      match addPeer st (resolveParams st.groups pc) with
       | some st' => let (s, l) := setupPeers st' rest; (s, true :: l)
       | none => let (s, l) := setupPeers st rest; (s, false :: l)
 
@@ -688,6 +706,9 @@ structure SetupRow where
   cfg : PeerCfg
   role : PeerRole
   deriving Repr, DecidableEq
+
+def setupRowOf (confed : Option (Nat × List Nat)) (e : Ip × Peer) : SetupRow :=
+  { addr := e.1, adminDown := e.2.adminDown, cfg := e.2.cfg, role := peerRole e.2.cfg confed }
 
 structure HistObs where
   added : List Bool
@@ -701,8 +722,7 @@ def initSt (g : GlobalCfg) (groups : List Group) : St :=
 
 def runHist (g : GlobalCfg) (groups : List Group) (peers : List PeerCase) (ops : List Op) : Out HistObs := do
   let (st, added) := setupPeers (initSt g groups) peers
-  let setup := sortBy (·.addr) <| st.peers.map fun (a, p) =>
-    { addr := a, adminDown := p.adminDown, cfg := p.cfg, role := peerRole p.cfg st.confed : SetupRow }
+  let setup := sortBy (·.addr) (st.peers.map (setupRowOf st.confed))
   let steps ← runOps st ops
   pure { added := added, setup := setup, steps := steps }
 
